@@ -40,12 +40,12 @@ suite_ok = "FAILED" not in out and "error" not in out and "35 passed" in out
 cmd = place_demo()
 rc, out = sh(cmd)
 log["demo_with_patch"] = out.strip()[-600:]
-fails_with = ("FAILED" in out or "failed" in out)
+fails_with = ("test result: FAILED" in out) and "could not compile" not in out
 clean()
 cmd = place_demo()
 rc, out = sh(cmd)
 log["demo_without_patch"] = out.strip()[-400:]
-passes_without = ("test result: ok" in out and "FAILED" not in out)
+passes_without = ("test result: ok" in out and "FAILED" not in out and "could not compile" not in out)
 clean()
 sh("git apply mutation/patch.diff")   # leave as the agent left it
 ok = suite_ok and fails_with and passes_without
